@@ -713,7 +713,7 @@ func writeEvidence(verifDir string, p *Prog, pd *PropDef, r *checkResult, tier s
 }
 
 var globalAssumptions = []string{
-	"nil dereferences (field access through nil, method call on nil interface, write to nil map) are not an obligation class: dereferenced pointers are assumed non-nil",
+	"nil dereferences are proof obligations only for pointers that may be nil by origin (see C01); otherwise a dereferenced pointer, an interface a method is called on and a map that is written are assumed non-nil",
 	"lengths of strings and slices are below 2^62; integers are mathematical Ints with exact wrap-around for + - * and conversions",
 	"calls into other packages do not write this package's memory except through the callbacks and pointer arguments they are given (write sets inferred syntactically)",
 	"functions without a contract are abstracted by their inferred write set and an arbitrary result of the declared type",
